@@ -21,6 +21,7 @@ def main():
     if not ck.build():
         ck.finish()
     ck.check_props()
+    ck.check_translation()
     dist = {}
     check_star_tie(ck, dist, with_dim=True)
     cases = G.exhaustive_small()
